@@ -32,6 +32,8 @@ M = [
  ("C18", "parser_log_not_cleared", "ccl/rslang/src/Parser.cpp", "  log.Clear();\n  return parser.Parse(Lex(expr, syntaxHint));", "  return parser.Parse(Lex(expr, syntaxHint));"),
  ("C18", "iteration_counter_not_reset", "ccl/rslang/src/ASTInterpreter.cpp", "  iterationCounter = 0;\n", ""),
  ("C18", "function_args_not_cleared", "ccl/rslang/src/TypeAuditor.cpp", "  functionArgs.clear();\n", ""),
+ ("C18", "static_generator_syntax_after", "ccl/rslang/src/GeneratorImplAST.cpp", "  generator.SetSyntax(syntax);\n  generator.Clear();\n  ast.Root().DispatchVisit(generator);\n", "  generator.Clear();\n  ast.Root().DispatchVisit(generator);\n  generator.SetSyntax(syntax);\n"),
+ ("C19", "guard_covers_child_checks", "ccl/core/src/oss/ossOperationsFacet.cpp", "  const auto stored = [&] {", "  const auto guardAll = core.DndGuard();\n  const auto stored = [&] {"),
  ("C19", "erase_keeps_grid_cell", "ccl/core/src/oss/OSSchema.cpp", "    grid->Erase(target);\n", ""),
  ("C19", "core_change_not_outdated", "ccl/core/src/oss/OSSchema.cpp", "      operation->outdated = true;\n", ""),
 ]
